@@ -566,3 +566,20 @@ Proof.
   cbv zeta. split; [|vm_compute; auto].
   intros e H. repeat (destruct H as [<-|H]; [apply Hk|]). destruct H.
 Qed.
+
+(* ======== round 4: the error path of the dispatch ===================================================
+   kv's getRedis / the cache cluster answer the no-node error exactly when dispatcher.Get answers !ok.
+   For every hash function, history and key: that happens iff no node of the node map has a virtual node
+   ([members] = entries with >= 1 effective replica) — the clause [p_nonode] of Check.prop_ok and the
+   model's [m_nonode] ([owner] = none) say the same thing. *)
+Theorem no_node_iff_no_members : forall vh R ops hp ihp, 0 <= R ->
+  (get (run vh R ops) hp ihp = GNone <-> members (amap_run R ops) = []).
+Proof. exact no_node_iff_no_members_l. Qed.
+Print Assumptions no_node_iff_no_members.
+
+(* reachable through the public constructors (total weight > 0): a weight whose product with h.replicas
+   wraps Go's int to 0, weight 0, a negative replica count; one proper weight makes a member *)
+Example no_members_example :
+  members (amap_run 100 [OAddW (mkNode 1 0) 92233720368547759; OAddW (mkNode 2 1) 0; OAddR (mkNode 3 2) (-4)]) = [] /\
+  members (amap_run 100 [OAddW (mkNode 1 0) 92233720368547759; OAddW (mkNode 2 1) 1]) = [(2, (1, 1))].
+Proof. vm_compute. auto. Qed.
